@@ -240,8 +240,12 @@ def fresh_colname(g, k=0):
 
 def fs_ok(g):
     """fit_surface is exercised on geometries it is meant for: a layer to fit into, every column with a surface, a conforming mesh"""
-    return len(g.layerlist) > 1 and len(g.columnlist) > 0 and all(c.surface is not None for c in g.columnlist) and \
-        all(3 <= len(c.node) <= 8 for c in g.columnlist) and L.conforming(g) and not L.mesh_defects(g)
+    try:
+        return len(g.layerlist) > 1 and len(g.columnlist) > 0 and all(c.surface is not None for c in g.columnlist) and \
+            all(3 <= len(c.node) <= 8 for c in g.columnlist) and L.conforming(g) and not L.mesh_defects(g) and \
+            all(g.column.get(c.name) is c for c in g.columnlist) and all(g.node.get(n.name) is n for n in g.nodelist)
+    except Exception:
+        return False          # an inconsistent object graph (after an edit that broke it): not a geometry to fit a surface to
 
 
 def fs_op(g, names, zfun, snap):
